@@ -4,6 +4,7 @@ import (
 	"bytes"
 	"errors"
 	"fmt"
+	"github.com/ulikunitz/xz"
 	"io"
 	"runtime/debug"
 	"testing"
@@ -26,6 +27,9 @@ type caseC09 struct {
 	L2    *caseC08 `json:"l2,omitempty"`
 	Src   *gen.Src `json:"src,omitempty"`
 	Piece int      `json:"piece,omitempty"` // read side: max bytes per source call
+	// read side, xz: ReaderConfig.SingleStream (the reader then probes the
+	// source for one more byte after the stream)
+	Single bool `json:"single,omitempty"`
 }
 
 func drawC09(t *rapid.T) caseC09 {
@@ -40,6 +44,9 @@ func drawC09(t *rapid.T) caseC09 {
 		cheapDict(&s)
 		c.Src = &s
 		c.Piece = rapid.SampledFrom([]int{0, 0, 1, 7, 64}).Draw(t, "piece")
+		if c.Fmt == "xz" {
+			c.Single = rapid.Bool().Draw(t, "singlestream")
+		}
 		return c
 	}
 	small := func(r gen.Recipe, max int) gen.Recipe {
@@ -403,7 +410,13 @@ func checkC09Read(c caseC09, rec *ev.Rec) *ev.Failure {
 						pm = fmt.Sprintf("panic: %v\n%s", r, debug.Stack())
 					}
 				}()
-				r, err := openReader(c.Fmt, src, dict)
+				var r io.Reader
+				var err error
+				if c.Single {
+					r, err = xz.ReaderConfig{DictCap: dict, SingleStream: true}.NewReader(src)
+				} else {
+					r, err = openReader(c.Fmt, src, dict)
+				}
 				if err != nil {
 					rerr = err
 					return
@@ -438,6 +451,9 @@ func checkC09Read(c caseC09, rec *ev.Rec) *ev.Failure {
 		}
 	}
 	rec.Class("side=read", "fmt="+c.Fmt, "read:"+c.Fmt+":origin="+c.Src.Origin)
+	if c.Single {
+		rec.Class("read:xz:SingleStream")
+	}
 	if c.Fmt == "lzma" {
 		mode := c.Src.SizeMode
 		if c.Src.Origin == "lib" {
